@@ -438,7 +438,21 @@ def run(repo, rep, tier):
     rep.ob("C12.R2", mcl, "MergeCells predicates test the matching class", ok, "", key="C12.R2@MergeCells:predicates")
     # Table.__init__ uses is_merge_reference to build placeholders
     ti = repo.func("document.py", "Table.__init__")
-    ok = "merge_cells.is_merge_reference((row, col))" in U(ti) and "_merged_cell(table_id, row, col, model)" in U(ti)
+    # ``self._x = <parameter>`` at the top of __init__: either spelling names the same value below
+    import re as _re
+    alias = {}
+    for st_ in ti.body:
+        if isinstance(st_, ast.Assign) and len(st_.targets) == 1 and isinstance(st_.targets[0], ast.Attribute) and U(st_.targets[0].value) == "self" \
+                and isinstance(st_.value, ast.Name) and st_.value.id in {a.arg for a in ti.args.args}:
+            alias[U(st_.targets[0])] = st_.value.id
+    def _al(text):
+        for k, v in alias.items():
+            text = _re.sub(_re.escape(k) + r"\b", v, text)
+        return text
+    ok = False
+    for n_ in body_walk(ti):
+        if isinstance(n_, ast.If) and _al(U(n_.test)) == "merge_cells.is_merge_reference((row, col))":
+            ok = any(isinstance(c_, ast.Call) and _al(U(c_)).endswith("_merged_cell(table_id, row, col, model)") for b_ in n_.body for c_ in ast.walk(b_))
     rep.ob("C12.R1", ti, "Table.__init__: merge references become merged placeholders at (row, col)", ok, "", key="C12.R1@Table.__init__")
 
     # ---- R4 merge map follows structural edits
